@@ -252,6 +252,46 @@ func VerifIntrospectionSiblings() {
 	verifReach("sibling selections checked")
 }
 
+// VerifIntrospectionHistory: one gateway answers a history of introspection requests that share their
+// text and operation name and differ in their variable values only; every answer is judged on its own.
+// Afterwards the schema still enforces what it enforced before (a required argument stays required).
+func VerifIntrospectionHistory() {
+	vK = 1
+	f := vNewFed(&vWorld{ents: map[string]vEnt{}, roots: map[string]interface{}{}}, nil, vS16A, vS16B)
+	q := `query Q($n: String!, $d: Boolean) { __type(name: $n) { name fields(includeDeprecated: $d) { name type { kind name ofType { kind name } } } enumValues(includeDeprecated: $d) { name } } }`
+	n := 1 + verifChoice("len", verifParam("hmax", 2))
+	for r := 0; r < n; r++ {
+		tn := []string{"Cat", "Mood", "Query"}[verifChoice("n"+verifItoa(r), 3)]
+		d := verifChoice("d"+verifItoa(r), 2) == 1
+		_, out := f.vPost(q, map[string]interface{}{"n": tn, "d": d}, "Q")
+		verifAssert(out["errors"] == nil, "the introspection operation is answered without errors")
+		data, _ := out["data"].(map[string]interface{})
+		typ, _ := data["__type"].(map[string]interface{})
+		verifAssert(typ != nil && typ["name"] == tn, "the answer describes the type this request asked for")
+		if typ == nil {
+			return
+		}
+		switch tn {
+		case "Cat":
+			verifAssert((vFind(typ["fields"], "old") != nil) == d, "deprecated fields are listed iff this request asked for them")
+			verifAssert(vFind(typ["fields"], "name") != nil, "current fields are listed")
+		case "Mood":
+			verifAssert((vFind(typ["enumValues"], "GRUMPY") != nil) == d, "deprecated enum values are listed iff this request asked for them")
+			verifAssert(vFind(typ["enumValues"], "HAPPY") != nil, "current enum values are listed")
+		case "Query":
+			nf := vFind(typ["fields"], "node")
+			verifAssert(nf != nil, "root fields are listed")
+			if nf != nil {
+				verifAssert(vTypeRefString(nf["type"]) == "Node", "field types are reported as declared")
+			}
+		}
+	}
+	// the schema the gateway enforces is untouched by answering: `id` of node stays required
+	_, bad := f.vPost(`{ node { id } }`, nil, "")
+	verifAssert(bad["errors"] != nil, "a required argument is still required after introspection")
+	verifReach("history answered")
+}
+
 // VerifIntrospectionRoundTrip: another gateway can rebuild an equivalent schema from the standard query
 func VerifIntrospectionRoundTrip() {
 	vK = 1
